@@ -147,17 +147,21 @@ def plan(tier, seed):
         hs.append(gen_scalar("ConvertScalarToScalarBasic", f, t, "quick"))
     for f, t in (("u8", "u16"), ("i8", "i64"), ("u32", "u128"), ("i16", "f32"), ("u32", "f64"), ("f32", "f64"), ("i64", "i128")):
         hs.append(gen_widen_narrow(f, t, "quick" if (f, t) in (("u8", "u16"), ("i16", "f32")) else "thorough"))
-    l2 = [("f64", "u8"), ("i16", "u8"), ("u8", "f64"), ("i64", "i32"), ("f64", "i64")]
-    for k, (f, t) in enumerate(l2):
-        hs.append(gen_dispatch(f, t, "quick" if k == seed % len(l2) else "thorough"))
-    hs.append(gen_dispatch_reject("quick"))
+    # Measured: impl_conversion_fxn (a 15 x 14 arm table plus table/set/option cases, all over heap-held ValueKind values) gets no
+    # verdict in 15 min / 9 GB for a single pair; the dispatch harnesses exist (VERIF_C12_DISPATCH=1) but are not part of the claim.
+    import os
+    if os.environ.get("VERIF_C12_DISPATCH"):
+        l2 = [("f64", "u8"), ("i16", "u8"), ("u8", "f64"), ("i64", "i32"), ("f64", "i64")]
+        for k, (f, t) in enumerate(l2):
+            hs.append(gen_dispatch(f, t, "quick" if k == seed % len(l2) else "thorough"))
+        hs.append(gen_dispatch_reject("quick"))
     return {
         "harnesses": hs,
         "explanation": "Kani/CBMC over the conversion structs (ConvertScalarToScalar / ConvertScalarToScalarBasic with their LosslessInto / "
                        "LossyFrom impls) for all 144 ordered pairs of primitive numeric kinds with the source value symbolic, and over the dispatch "
                        "function impl_conversion_fxn for a sample of pairs",
-        "bounds": "scalars: all bit patterns, all 144 ordered pairs x both structs in both tiers; dispatch (L2) for 5 pairs (one per seed in quick) + string->u8 rejection",
-        "outside": ["matrix conversion and reshape (ConvertMatToMat2, create_reshape_mat_to_mat)", "matrix -> set", "rational / complex / string "
+        "bounds": "scalars: all bit patterns, all 144 ordered pairs x both structs in both tiers",
+        "outside": ["impl_conversion_fxn dispatch: which struct family a pair is routed to, and `no conversion => error` (no verdict within 15 min; see generator)", "matrix conversion and reshape (ConvertMatToMat2, create_reshape_mat_to_mat)", "matrix -> set", "rational / complex / string "
                     "targets", "Value::convert_to", "kind annotation syntax -> ConvertKind call (statements.rs)"],
         "caps": {"quick_timeout": 900, "thorough_timeout": 1800, "heavy_jobs": 6, "heavy_rss_gb": 9},
     }
